@@ -529,8 +529,10 @@ func runC08() {
 				return cr
 			}
 			for len(stack) > 0 && explored < *c08Cap {
-				prefix := stack[len(stack)-1]
-				stack = stack[:len(stack)-1]
+				// breadth first: every schedule with one preemption before any with two (a deadlock or a lost update
+				// between two requests needs one preemption at the right call)
+				prefix := stack[0]
+				stack = stack[1:]
 				cr := runOne(prefix, nil)
 				// children: deviate at one later decision, within the preemption bound
 				pre := 0
